@@ -2,10 +2,9 @@ import VerylModel.Core.Migrator
 import VerylModel.Gen.MigratorConsts
 import VerylModel.Driver.TokenPos
 /-! `vmodel migrate`: the migrator's text reconstruction (C23).
-`mig <rawhex> [texthex:line:col:keep,...]` -> hex of the output; `migfix` = repaired column tracking;
-`migT`/`migfixT` = the same two on a token list carrying true positions;
-`decide <0|1>` -> `migrate=<0|1>`; the harness's bookkeeping lines (`case`, `annotation`, `parse`,
-`tokens`, `comments`, `reparse`) have no model reply (`?`). -/
+`mig <rawhex> [texthex:line:col:keep,...]` -> hex of the output;
+`decide <0|1>` -> `migrate=<0|1>`; the harness's bookkeeping lines (`case`, `annotation`, `positions`,
+`parse`, `tokens`, `comments`, `reparse`) have no model reply (`?`). -/
 namespace VerylModel.Driver.Migrator
 open VerylModel.TokenPos VerylModel.Migrator VerylModel.Driver VerylModel.Driver.TokenPos
 
@@ -31,24 +30,13 @@ def step (_ : Unit) (t : List String) : Unit × String :=
     match text? raw, toks? toks with
     | some r, some ts => ((), textHex (migrate r ts))
     | _, _ => ((), "bad-op")
-  | ["migfix", raw, toks] =>
-    match text? raw, toks? toks with
-    | some r, some ts => ((), textHex (migrateFixed r ts))
-    | _, _ => ((), "bad-op")
-  | ["migT", raw, toks] =>
-    match text? raw, toks? toks with
-    | some r, some ts => ((), textHex (migrate r ts))
-    | _, _ => ((), "bad-op")
-  | ["migfixT", raw, toks] =>
-    match text? raw, toks? toks with
-    | some r, some ts => ((), textHex (migrateFixed r ts))
-    | _, _ => ((), "bad-op")
   | ["decide", b] =>
     if b = "1" then ((), s!"migrate={if shouldMigrate VerylModel.Gen.migratable true then 1 else 0}")
     else if b = "0" then ((), s!"migrate={if shouldMigrate VerylModel.Gen.migratable false then 1 else 0}")
     else ((), "bad-op")
   | "case" :: _ => ((), "?")
   | ["annotation"] => ((), "?")
+  | ["positions"] => ((), "?")
   | ["parse"] => ((), "?")
   | ["tokens"] => ((), "?")
   | ["comments"] => ((), "?")
